@@ -473,7 +473,7 @@ func (f *file) ReadDir(n int) ([]hackpadfs.DirEntry, error) {
 		if start == end {
 			return nil, io.EOF
 		}
-		if start+int64(n) < end {
+		if int64(n) < end-start { // compare this way round: start+n overflows for a huge n
 			end = start + int64(n)
 		}
 	}
